@@ -530,7 +530,7 @@ def _work_benign(args) -> dict:
     try:
         _copy_tree(repo, root)
         # the scratch copy holds the package without its test-suite; hunks for test files are not part of what is analysed
-        r = subprocess.run(["git", "apply", "--whitespace=nowarn", "--exclude=xandikos/tests/*", patch], cwd=root, capture_output=True, text=True)
+        r = subprocess.run(["git", "apply", "--whitespace=nowarn", "--exclude=xandikos/tests/*", "--include=xandikos/*", patch], cwd=root, capture_output=True, text=True)
         if r.returncode != 0:
             return {"id": "refactor:" + bid, "prop": prop, "status": "skipped", "benign": True, "desc": "refactoring (patch does not apply to this tree)"}
         run = core.run_property(prop, root, "quick")
@@ -554,7 +554,7 @@ def _work_seed(args) -> dict:
     os.makedirs(root)
     try:
         _copy_tree(repo, root)
-        r = subprocess.run(["git", "apply", "--whitespace=nowarn", patch], cwd=root, capture_output=True, text=True)
+        r = subprocess.run(["git", "apply", "--whitespace=nowarn", "--exclude=xandikos/tests/*", "--include=xandikos/*", patch], cwd=root, capture_output=True, text=True)
         if r.returncode != 0:
             return {"id": "seed:" + sid, "prop": prop, "status": "skipped", "desc": "seeded change (patch does not apply to this tree)"}
         run = core.run_property(prop, root, "quick")
